@@ -64,7 +64,8 @@ BigFam  == IF ~BigFull
 
 Cases == Single \cup Empty \cup SizeFam \cup TsFam \cup BigFam
 
-Rest == /\ mpc = "hdr" /\ written = 0 /\ file = <<>> /\ avail = 0
+\* (the caller's memory is not built here: bodies go up to 2^24-1 bytes; the replayer lays them out as FlvFile's arena)
+Rest == /\ mpc = "hdr" /\ written = 0 /\ file = <<>> /\ avail = 0 /\ arena = <<>> /\ eofWith = FALSE
         /\ dpc = "hdr" /\ pos = 0 /\ pending = [t |-> 0, n |-> 0, ts |-> <<0, 0>>]
         /\ hdrOut = [sig |-> FALSE, version |-> 0, video |-> FALSE, audio |-> FALSE]
         /\ got = <<>>
@@ -86,7 +87,7 @@ SimInit == /\ flags \in AllFlags /\ tags = <<>> /\ fam = "walk" /\ Rest
 SimNext == \/ /\ Len(tags) < SimLen
               /\ \E t \in SimTypes(Len(tags)), ts \in SimTs(Len(tags)), n \in SimSizes(Len(tags)) :
                    tags' = Append(tags, Tag(t, ts, n, Len(tags) + 1))
-              /\ UNCHANGED <<flags, mpc, written, file, avail, dpc, pos, pending, hdrOut, got, fam>>
+              /\ UNCHANGED <<flags, arena, mpc, written, file, avail, eofWith, dpc, pos, pending, hdrOut, got, fam>>
            \/ /\ Len(tags) = SimLen /\ fam = "walk"
               /\ fam' = "sim"
               /\ UNCHANGED vars
